@@ -26,6 +26,11 @@ def pivot():
                       generics=GEN, ty_args="<u8>", subst={"T": "u8"}, serialize_all="title_case", note="generic, title_case (spaces in names)"))
     S.append(EnumSpec("WithDef", [U("Aa"), U("Other", fields=[Field("String")], default=True), U("Bb", serialize=["bb", "b"])],
                       note="default variant present (excluded from the round trip, but it would swallow a wrong name silently)"))
+    S.append(EnumSpec("CaseOnly", [U("Mb", serialize=["mb"], to_string="MB"), U("Kb", serialize=["kb", "KB", "Kb"]), U("Plain")],
+                      note="serialize and to_string of one variant differ only in letter case (case-sensitive enum)"))
+    S.append(EnumSpec("Esc", [U("Braces", to_string="${{name}}", fields=[Field("u32", name="id")], named=True), U("Tb", serialize=["{{x}}", "x"], fields=[Field("u8")]),
+                              U("Ub", to_string="u{{}}"), U("Tab", serialize=["\t\t", "tab"]), U("Quote", to_string="a\"b\\")],
+                      note="doubled braces without placeholders on named / tuple / unit variants; spellings that need escaping"))
     for st in casing.ALL_STYLE_STRINGS:
         nm = "St" + "".join(ch for ch in st.title() if ch.isalnum())
         S.append(EnumSpec(nm, [U("DarkBlack"), U("HTTPServer", fields=[Field("u8")]), U("Io2Go"), U("X"), U("KeepMe", serialize=["KeepMe", "km"]),
